@@ -1991,6 +1991,7 @@ func (h *handler) getPartitionLog(ctx context.Context, topic string, partition i
 
 	// Requests for other partitions proceed in parallel; only one goroutine
 	// per partition does the actual initialization.
+	autoCreated := false
 	for {
 		key := fmt.Sprintf("%s/%d", topic, partition)
 		result, err, _ := h.logInit.Do(key, func() (interface{}, error) {
@@ -2035,10 +2036,14 @@ func (h *handler) getPartitionLog(ctx context.Context, topic string, partition i
 			return plog, nil
 		})
 		if err != nil {
-			if errors.Is(err, metadata.ErrUnknownTopic) && h.autoCreateTopics {
+			// Auto-create at most once: if the topic already exists but does not
+			// have this partition, ensureTopic succeeds (topic exists) while the
+			// lookup keeps failing, and retrying would spin forever.
+			if errors.Is(err, metadata.ErrUnknownTopic) && h.autoCreateTopics && !autoCreated {
 				if err := h.ensureTopic(ctx, topic, partition); err != nil {
 					return nil, err
 				}
+				autoCreated = true
 				continue
 			}
 			return nil, err
